@@ -18,6 +18,12 @@ func init() {
 		ruleP4(c, "C13.P4")
 		ruleP5(c, "C13.P5")
 		ruleL2f(c, "C13.P6", func(e string) bool { return strings.Contains(e, "READDIR") }, 4)
+		// the directory stays locked for the whole enumeration (T1 for the listing procedures): a scan that lets go
+		// of the directory in the middle continues on entries that may be gone
+		ruleT1f(c, "C13.P9", func(e string) bool { return strings.Contains(e, "READDIR") }, 4)
+		// a directory holds each name once (the name/link co-update discipline of C04.S2): a stale slot left by a
+		// replaced name is listed next to the new one
+		ruleS2(c, "C13.P10")
 		ruleKind(c, "C13.P7")
 		ruleP8(c, "C13.P8")
 	}
